@@ -50,19 +50,19 @@ CONSTANTS Family,     \* "dyn" | "list" | "gc"
                       \* the generator would print thousands of histories that all die there)
 
 VARIABLES kind, elems, cap, sized, zb,  \* the array in focus (zb: see Reserve)
-          ohas, oelems, ocap,           \* the other array (result of Clone), if any
+          ohas, oelems, ocap, osized, ozb,   \* the other array (result of Clone), if any
           nalloc, okind, rc, ext, fld, freed,   \* gc family
           status,                       \* "run" | "aborted" | "done"
           hist
 
-cvars == <<kind, elems, cap, sized, zb, ohas, oelems, ocap>>
+cvars == <<kind, elems, cap, sized, zb, ohas, oelems, ocap, osized, ozb>>
 gvars == <<nalloc, okind, rc, ext, fld, freed>>
-vars  == <<kind, elems, cap, sized, zb, ohas, oelems, ocap, nalloc, okind, rc, ext, fld, freed, status, hist>>
-View  == <<kind, elems, cap, sized, zb, ohas, oelems, ocap, nalloc, okind, rc, ext, fld, freed, status>>
+vars  == <<kind, elems, cap, sized, zb, ohas, oelems, ocap, osized, ozb, nalloc, okind, rc, ext, fld, freed, status, hist>>
+View  == <<kind, elems, cap, sized, zb, ohas, oelems, ocap, osized, ozb, nalloc, okind, rc, ext, fld, freed, status>>
 \* the shape abstraction used by the generation pass: contents are dropped, so TLC prints
 \* one history per transition of the (length, capacity) quotient graph; the contents of
 \* the representative history are still prescribed and compared step by step.
-ShapeView == <<kind, Len(elems), cap, sized, zb, ohas, Len(oelems), ocap, nalloc, okind, rc, ext, fld, freed, status>>
+ShapeView == <<kind, Len(elems), cap, sized, zb, ohas, Len(oelems), ocap, osized, ozb, nalloc, okind, rc, ext, fld, freed, status>>
 
 INITIAL_CAPACITY == InitialCapacity
 GROWTH == Growth
@@ -150,9 +150,9 @@ Running == status = "run" /\ Len(hist) < MaxLen + 1      \* entry 1 of hist is t
 -----------------------------------------------------------------------------
 (* Containers *)
 
-NoChange == UNCHANGED <<kind, elems, cap, sized, zb, ohas, oelems, ocap>>
+NoChange == UNCHANGED <<kind, elems, cap, sized, zb, ohas, oelems, ocap, osized, ozb>>
 OnlyMain(e2, c2) == /\ elems' = e2 /\ cap' = c2
-                    /\ UNCHANGED <<kind, sized, zb, ohas, oelems, ocap>>
+                    /\ UNCHANGED <<kind, sized, zb, ohas, oelems, ocap, osized, ozb>>
 
 IsC == Family \in {"dyn", "list"}
 
@@ -164,7 +164,7 @@ Push(v) ==
     /\ IsC /\ Running
     /\ elems' = Append(elems, v) /\ cap' = PushCap
     /\ sized' = TRUE /\ zb' = FALSE
-    /\ UNCHANGED <<kind, ohas, oelems, ocap>>
+    /\ UNCHANGED <<kind, ohas, oelems, ocap, osized, ozb>>
     /\ CommitC(Entry("push", 0, v, "ok", 0))
 
 \* ---- push of an element of the same array (aliasing) -----------------------
@@ -176,7 +176,7 @@ Push(v) ==
 PushOwn(i) ==
     /\ Family = "dyn" /\ Running /\ IsStruct(kind) /\ InRange(i, Len(elems))
     /\ elems' = Append(elems, elems[i + 1]) /\ cap' = PushCap
-    /\ UNCHANGED <<kind, sized, zb, ohas, oelems, ocap>>
+    /\ UNCHANGED <<kind, sized, zb, ohas, oelems, ocap, osized, ozb>>
     /\ CommitC(EntryDev("push_own", i, elems[i + 1], "ok", 0,
                         (IF Len(elems) >= cap THEN "DYN_PUSH_STRUCT_ALIAS" ELSE "")))
 
@@ -255,7 +255,7 @@ Reserve(n) ==
     /\ n <= 65536          \* keeps the capacities of long random histories (2 * cap + 3, repeated) allocatable
     /\ elems' = elems /\ cap' = (IF n > cap THEN n ELSE cap)
     /\ zb' = (zb \/ (IsStruct(kind) /\ ~sized /\ n > cap))
-    /\ UNCHANGED <<kind, sized, ohas, oelems, ocap>>
+    /\ UNCHANGED <<kind, sized, ohas, oelems, ocap, osized, ozb>>
     /\ CommitC(Entry("reserve", n, 0, "ok", 0))
 
 \* ---- clone (dyn only): dyn_array_new(kind) + reserve(len) + memcpy ---------
@@ -264,6 +264,7 @@ Reserve(n) ==
 Clone ==
     /\ Family = "dyn" /\ Running
     /\ ohas' = TRUE /\ oelems' = elems /\ ocap' = Max(INITIAL_CAPACITY, Len(elems))
+    /\ osized' = sized /\ ozb' = FALSE      \* the clone knows the element size iff the source does; fresh storage
     /\ UNCHANGED <<kind, elems, cap, sized, zb>>
     /\ CommitC(Entry("clone", 0, 0, "ok", 0))
 
@@ -271,7 +272,8 @@ Clone ==
 Swap ==
     /\ Family = "dyn" /\ Running /\ ohas
     /\ elems' = oelems /\ cap' = ocap /\ oelems' = elems /\ ocap' = cap
-    /\ UNCHANGED <<kind, sized, zb, ohas>>
+    /\ sized' = osized /\ osized' = sized /\ zb' = ozb /\ ozb' = zb
+    /\ UNCHANGED <<kind, ohas>>
     /\ CommitC(Entry("swap", 0, 0, "ok", 0))
 
 \* ---- element-type contract ------------------------------------------------
@@ -287,7 +289,7 @@ PushStructPromote(v) ==
     /\ ~ohas           \* one `kind` describes both arrays; promotion is explored without a clone
     /\ IF Len(elems) = 0
        THEN /\ kind' = "struct" /\ elems' = <<v>> /\ sized' = TRUE
-            /\ UNCHANGED <<cap, zb, ohas, oelems, ocap>>
+            /\ UNCHANGED <<cap, zb, ohas, oelems, ocap, osized, ozb>>
             /\ CommitC(Entry("push_struct", 0, v, "ok", 0))
        ELSE NoChange /\ CommitC(Entry("push_struct", 0, v, "abort", 0))
 
@@ -441,7 +443,7 @@ Init ==
                             ELSE [kind |-> kind, len |-> n,
                                   cap |-> GrowTo(InitCapOf(kind, ic), n),
                                   elems |-> PrefillSeq(n), ohas |-> 0, oelems |-> <<>>, ocap |-> 0]] >>
-    /\ ohas = FALSE /\ oelems = <<>> /\ ocap = 0 /\ zb = FALSE
+    /\ ohas = FALSE /\ oelems = <<>> /\ ocap = 0 /\ zb = FALSE /\ osized = TRUE /\ ozb = FALSE
     /\ nalloc = 0
     /\ okind = [o \in 1..MaxObj |-> ""]
     /\ rc = [o \in 1..MaxObj |-> 0]
